@@ -1592,6 +1592,9 @@ class GroupBy:
         2       45.0  50.0  55.0
         """
         result = self.apply(values=values, func=np.quantile, q=q, mask=mask)
+        if len(result) == 0:
+            # nothing selected (all-false mask, every key null): empty result
+            return result
         if np.ndim(q) > 0:
             result.index = result.index.set_levels(q, level=-1)
         result.index.names = [*result.index.names[:-1], "q"]
